@@ -335,6 +335,7 @@ func surfaceHash(t *template) string {
 // a mismatch when a Go panic escapes the API.
 func execSurface(r *rc, t *template, c *scase, key string) {
 	src := c.source()
+	r.Describe(c.rendered())
 	r.Begin(key)
 	vm := t.vm.Copy()
 	if b := c.bridged(); b != nil {
@@ -363,7 +364,7 @@ func execSurface(r *rc, t *template, c *scase, key string) {
 	out := outcome(res)
 	r.Eval(!res.Panicked && res.Err == nil)
 	r.Outcome(c.fn.Path + "=>" + out)
-	if r.WantSample() && (c.recv+len(c.args)+c.fn.Idx)%37 == 0 {
+	if r.WantSample() && sparse(key, 4999) {
 		r.Sample(c.rendered() + "  =>  " + out)
 	}
 	if res.Panicked {
